@@ -9,6 +9,8 @@ FROZEN = ("all(implies(old(alloc(f)) and old(computed(f)) and f is not self, f.$
 # E5: unknown code does not ask an item for its value while its batch is completing its items
 NOWIN = "not in_window(self)"
 KEEP = "self.$n_flush_body == old(self.$n_flush_body)"
+# a task is completed between generator steps, never from inside its own running body
+NOTRUN = "implies(isinstance(self, AsyncTask), self.running == False)"
 
 # a constructor runs on a fresh object (modelled with the pending defaults, see common.fresh_future)
 FRESH = ["self._value is _none", "self._error is None"]
@@ -52,7 +54,7 @@ def register(reg, repo):
               labels={("post", 4): "no-recompute"}))
 
     reg.add(C("futures.FutureBase.set_value", modifies="*",
-              requires=["value is not _none"],
+              requires=["value is not _none", NOTRUN],
               post=["not old(computed(self))", "computed(self)", "self._value is value",
                     "self._error is None", NOTIF, KEEP],
               xpost=["old(computed(self))", "isinstance(exc, FutureIsAlreadyComputed)",
@@ -60,7 +62,7 @@ def register(reg, repo):
               labels={("xpost", 2): "changes-nothing", ("xpost", 3): "changes-nothing-no-callout",
                       ("post", 4): "notified-once"}))
 
-    reg.add(C("futures.FutureBase.set_error", modifies="*",
+    reg.add(C("futures.FutureBase.set_error", modifies="*", requires=[NOTRUN],
               post=["not old(computed(self))", "computed(self)", "self._error is error",
                     "self._value is None", NOTIF, KEEP],
               xpost=["old(computed(self))", "isinstance(exc, FutureIsAlreadyComputed)",
@@ -74,7 +76,7 @@ def register(reg, repo):
               note="explicit escape hatch: exempt from T1 and from the ghost part of I-Fut (E1: unknown code does not call it)"))
 
     reg.add(C("futures.FutureBase._computed!virtual", params=["self"], kind="method", modifies="*", trusted=True,
-              requires=["computed(self)", "self.$n_notified == 0"],
+              requires=["computed(self)", "self.$n_notified == 0", NOTRUN],
               post=[NOTIF, FROZEN, "implies(isinstance(self, BatchBase), items_done(self))"], xpost=None,
               labels={"ts_skip": ("notif",)},
               note="dynamic dispatch of self._computed(): every override (FutureBase, AsyncTask, BatchBase) "
